@@ -6,3 +6,5 @@ git apply "$PATCH" || { echo "no apply"; exit 2; }
 cd /verif && VERIF_SEED=${SEED:-1} ./check $P 2>&1 | grep -v "^KNOWN-FINDING" | tail -6
 git -C /repo checkout -- . ; git -C /repo status --short | head -3
 git -C /verif checkout -- evidence/$P.json 2>/dev/null
+# the generated tables were written from the seeded tree: write them again from the restored one
+(cd /verif && python3 tools/gen_tables.py >/dev/null 2>&1)
